@@ -194,31 +194,42 @@ class Ctx:
             e.update({k: str(v) for k, v in env.items()})
         shards = [cases[k::nproc] for k in range(nproc)]
         results = {}
-        pending = []
-        for k, shard in enumerate(shards):
-            pending.append(self._spawn(worker, shard, k, 0, e))
+        case_limit = int(e.get("VERIF_CASE_TIMEOUT", "120"))
+        e["VERIF_CASE_TIMEOUT"] = str(case_limit)
+        stall_s = case_limit * 2 + 90          # no new result line for this long: the worker is stuck in native code
+        pending = [list(self._spawn(worker, shard, k, 0, e)) + [time.time(), 0] for k, shard in enumerate(shards)]
         deadline = time.time() + timeout_s
         while pending:
+            time.sleep(0.2)
             nxt = []
-            for (p, shard, k, gen, inp, outp) in pending:
-                try:
-                    p.wait(timeout=max(1, deadline - time.time()))
-                except subprocess.TimeoutExpired:
-                    p.kill()
-                    p.wait()
+            for item in pending:
+                (p, shard, k, gen, inp, outp, last, size) = item
+                rc = p.poll()
+                stuck = False
+                if rc is None:
+                    sz = os.path.getsize(outp) if os.path.exists(outp) else 0
+                    if sz != size:
+                        item[6], item[7] = time.time(), sz
+                    if time.time() - item[6] > stall_s or time.time() > deadline:
+                        p.kill(); p.wait(); stuck = True
+                    else:
+                        nxt.append(item)
+                        continue
                 got = self._collect(outp, results)
                 rest = [c for c in shard if c["id"] not in results]
-                if rest and (p.returncode != 0 or got < len(shard)):
+                if rest:
                     err = open(outp + ".err").read()[-1500:] if os.path.exists(outp + ".err") else ""
+                    if time.time() > deadline:
+                        raise Machinery("worker %s exceeded the lane's time budget (%ds)" % (worker, timeout_s))
                     if gen > 40:
                         raise Machinery("worker %s keeps failing: rc=%s\n%s" % (worker, p.returncode, err))
-                    if p.returncode not in (0,) and p.returncode is not None and p.returncode > 0 and p.returncode not in (139, 134, 137):
+                    if not stuck and p.returncode is not None and p.returncode > 0 and p.returncode not in (139, 134, 137):
                         # a Python-level failure of the worker itself is machinery, not an observation
                         raise Machinery("worker %s failed rc=%s\n%s" % (worker, p.returncode, err))
-                    results[rest[0]["id"]] = {"st": "crashed", "rc": p.returncode}
+                    results[rest[0]["id"]] = {"st": "timeout", "limit_s": stall_s} if stuck else {"st": "crashed", "rc": p.returncode}
                     rest = rest[1:]
                     if rest:
-                        nxt.append(self._spawn(worker, rest, k, gen + 1, e))
+                        nxt.append(list(self._spawn(worker, rest, k, gen + 1, e)) + [time.time(), 0])
             pending = nxt
         return results
 
